@@ -185,7 +185,7 @@ func GenCmdCase(r *Rand, doc *GDoc, kinds []string) CmdCase {
 		case 2:
 			first = genTime(r).Text + " - ?"
 		case 3:
-			first = Pick(r, []string{"foo", "25:00 - 26:00", "1h60m", "9:00 - 8:00", "8:00 -", "#tag only"})
+			first = Pick(r, []string{"foo", "25:00 - 26:00", "1h60m", "9:00 - 8:00", "8:00 -", "#tag only", "99999999999999999999h", "9223372036854775807h x"})
 		default:
 			first = Pick(r, []string{" ", "  ", "\t", "    "}) + "2h"
 		}
